@@ -221,7 +221,15 @@ func (c *Cookie) AppendBytes(dst []byte) []byte {
 		dst = append(dst, c.key...)
 		dst = append(dst, '=')
 	}
-	dst = append(dst, c.value...)
+	if n := len(c.value); n > 0 && (c.value[0] == ' ' || c.value[n-1] == ' ') {
+		// recipients (Cookie.ParseBytes too) trim the spaces around a bare value and keep
+		// those inside double quotes; net/http quotes such values as well
+		dst = append(dst, '"')
+		dst = append(dst, c.value...)
+		dst = append(dst, '"')
+	} else {
+		dst = append(dst, c.value...)
+	}
 
 	if c.maxAge > 0 {
 		dst = append(dst, ';', ' ')
